@@ -11,18 +11,18 @@ BASELINE = ("cd /repo && cargo nextest run --workspace --no-fail-fast --tool-con
 CHECKS = {
  "C01": ("exploration", "vcheck",
    "property-based testing (proptest, seed-sharded, shrinking) + exhaustive enumeration of cuts of short streams; reference-model oracle (serde_json on exactly one frame)",
-   "Generated frame sequences (valid, wrong-shape, malformed, padded; sizes dialled around the 256-byte growth steps) x chunkings x Pending schedules x 8 target types are received through a scripted transport and compared result-by-result with the reference decode of each frame; every single cut and pair of cuts of 100+ short streams is enumerated; a lane of large bursts mixes frames of 4..90 KiB (hundreds of growth steps) with small ones; thorough adds a libFuzzer campaign (frames_rx) with the same oracle. Exploration: it finds counterexamples with high probability in the generated domain, it does not prove absence.",
+   "Generated frame sequences (valid, wrong-shape, malformed, padded with JSON white space or with bytes other definitions of white space accept - VT, FF, NEL, NBSP, LS, BOM; sizes dialled around the 256-byte growth steps) x chunkings x Pending schedules x 8 target types are received through a scripted transport and compared result-by-result with the reference decode of each frame; every single cut and pair of cuts of 100+ short streams is enumerated; a lane of large bursts mixes frames of 4..90 KiB (hundreds of growth steps) with small ones; thorough adds a libFuzzer campaign (frames_rx) with the same oracle. Exploration: it finds counterexamples with high probability in the generated domain, it does not prove absence.",
    "Trusted: serde_json::from_slice as the definition of 'decodes', the C04 rules for classifying replies, the simulated transport (never over-fills the offered buffer, EOF = 0-byte read).",
    "§3 C01"),
  "C04": ("exploration", "vcheck",
    "exhaustive enumeration of a reply-frame grammar x parameter types x error types; rule-based oracle from the statement (differential: direct serde decode of the caller's types vs zlink's receive path)",
-   "The complete cross product of a reply grammar (18 error spellings x 16 parameter shapes x continues x unknown member x every member order) is received as 9 (P,E) type combinations through receive_reply and call_method; a frame with an `error` member must never come back as success and must be classified exactly as the statement's rules say - under two definitions of 'the caller's error type recognises it' that both have to agree with zlink: the serde decode of the type, and a hand-written description of the declared variants (qualified name, field names and JSON types, unknown members ignored).",
+   "The complete cross product of a reply grammar (18 error spellings x 16 parameter shapes x continues x unknown member x every member order) is received as 9 (P,E) type combinations through receive_reply and call_method, and answered to the methods of a generated proxy (unit output with a declared / empty error enum, struct output, first item of a streaming method); a frame with an `error` member must never come back as success and must be classified exactly as the statement's rules say - under two definitions of 'the caller's error type recognises it' that both have to agree with zlink: the serde decode of the type, and a hand-written description of the declared variants (qualified name, field names and JSON types, unknown members ignored).",
    "Trusted: the hand-written description of the three error enums and of org.varlink.service's errors used here (field-less variants with parameters that are neither absent, null nor an object are not judged); the grammar is finite and enumerated completely, frames outside it are not covered.",
    "§3 C04"),
 
  "C02": ("exploration", "vcheck",
    "model-based property testing of operation histories (proptest, shrinking; thorough: libFuzzer target tx_hist decoding the same raw operation specs) with a model-directed size generator + exhaustive directed sweep of free-space values 0..=600; oracle = model of the wire built from serde_json encodings",
-   "Histories of enqueue_call/send_call/send_reply/send_error/flush (and flushes that are started while the transport does not accept the write and abandoned after 1..3 polls) with message sizes aimed (by a model of the 256-byte-step write buffer) at every free-space value 0..=600, the exact-fit branch and multi-step spans, with refused messages injected anywhere; the transport's record (one entry per write call) must equal the model's list of writes byte for byte.",
+   "Histories of enqueue_call/send_call/send_reply/send_error/flush (and flushes that are started while the transport does not accept the write and abandoned after 1..3 polls) with message sizes aimed (by a model of the 256-byte-step write buffer) at every free-space value 0..=600, the exact-fit branch and multi-step spans, with refused messages injected anywhere and payloads that walk the serde data model (every variant kind incl. struct variants whose fields are all skipped, non-finite floats, 128-bit integers, escaped variant names and chars, integer / char keys); the transport's record (one entry per write call) must equal the model's list of writes byte for byte.",
    "Trusted: serde_json::to_vec as the reference encoding of a message (C03 checks the serializer itself); the capturing write half. The buffer model is used for aiming only.",
    "§3 C02"),
  "C03": ("exploration", "vcheck",
@@ -87,7 +87,7 @@ CHECKS = {
    "§3 C16"),
  "C06": ("exploration", "vcheck",
    "model-based property testing of chains (proptest, shrinking; thorough: libFuzzer target chain_rx decoding the same raw values): generated flag sequences + conforming server scripts + trailing frames + chunkings, stream polled by hand; exhaustive enumeration of all flag sequences up to length 4 x 3 script families x 3 trailing counts x 6 chunkings; oracle = owed-reply model + reference decode + transport poll counter",
-   "Chains of 1..6 calls over {plain, oneway, more} (call sizes dialled so that the enqueued calls end before / at / after the 256-byte steps of the write buffer; success replies with or without a `parameters` member) are sent through Connection::chain_call/append/send against a scripted transport that then stays silent; the single transport write must equal the calls' reference encodings, the stream must yield exactly the owed replies (as the reference classifies each frame) and then None without polling the transport, and a later receive_reply must still find every trailing frame.",
+   "Chains of 1..6 calls over {plain, oneway, more} (call sizes dialled so that the enqueued calls end before / at / after the 256-byte steps of the write buffer; success replies with or without a `parameters` member; one final reply in twenty is a top-level failure - undeclared error, standard service error, not a reply - after which the stream may stop or go on, but must not treat the failed reply as if it had not been its call's final one) are sent through Connection::chain_call/append/send against a scripted transport that then stays silent; the single transport write must equal the calls' reference encodings, the stream must yield exactly the owed replies (as the reference classifies each frame) and then None without polling the transport, and a later receive_reply must still find every trailing frame.",
    "Trusted: conforming server scripts only (non-conforming servers are outside the statement); reply classification reference as in C04; hand polling with a no-op waker (a Pending with an exhausted script is 'waits forever').",
    "§3 C06"),
  "C17": ("exploration", "vcheck",
@@ -101,8 +101,8 @@ CHECKS = {
    "Trusted: a call is 'waiting' from the delivery of its last byte (deliveries end at frame boundaries or inside a connection's only outstanding call); a call queued behind its own connection's open stream counts as eligible only once the server has seen the stream end. Not claimed: that reply streams make progress while some client keeps calls buffered (the biased select polls streams last; see DESIGN.md §4 notes).",
    "§3 C18"),
  "C19": ("exploration", "vcheck",
-   "generated end-to-end scenarios over real Unix sockets under tokio (current-thread, multi-thread) and smol: socketpairs and bound / inherited-descriptor listeners with 1..8 concurrent connections, message sizes 1 B..1 MiB in both directions at once with generated reader pacing; deterministic cancellation recipe (send polled by hand until Pending with the peer reading a generated number of bytes, dropped, second send); oracle = sent sequence == received sequence byte for byte (position-dependent pattern), distinct connection ids, peer byte stream == whole frames each once",
-   "Each scenario moves generated call and reply sequences through two zlink connections joined by a real socket and compares index, length and every byte; the cancellation scenarios compare the peer's raw byte stream with frame(A) NUL frame(B) NUL. Sizes beyond the kernel socket buffer force partial writes; the schedule itself is not owned, so this is the weakest claim of the set: one kernel schedule per scenario.",
+   "generated end-to-end scenarios over real Unix sockets under tokio (current-thread, multi-thread) and smol: socketpairs and bound / inherited-descriptor listeners with 1..8 concurrent connections, message sizes 1 B..1 MiB in both directions at once with generated reader pacing; deterministic cancellation recipe (send polled by hand until Pending with the peer reading a generated number of bytes, dropped, second send) and cancellation histories (2..6 sends on one connection, any of them abandoned after 1..4 polls); zlink's own Server on a real listener in its own thread serving 1..6 real clients of either runtime (calls, declared errors, oneway calls, pipelined chains, streaming calls); oracle = sent sequence == received sequence byte for byte (position-dependent pattern), distinct connection ids, peer byte stream == whole frames, each at most once, in order, completed sends exactly once; served clients get exactly the service's replies",
+   "Each scenario moves generated call and reply sequences through two zlink connections joined by a real socket and compares index, length and every byte; the cancellation scenarios compare the peer's raw byte stream with frame(A) NUL frame(B) NUL, the cancellation histories demand a subsequence of the sent frames that contains every completed send; the served scenarios run Server::run over a bound or inherited listener under tokio or smol against clients under tokio (current / multi-thread) or smol and compare every reply (ids, item sequence numbers, pattern bytes, continues flags). Sizes beyond the kernel socket buffer force partial writes; the schedule itself is not owned, so this is the weakest claim of the set: one kernel schedule per scenario.",
    "Trusted: the kernel and the two runtimes; each scenario runs under a deadline whose expiry is reported as inconclusive (exit 2). Violations are re-run 5 times on replay.",
    "§3 C19"),
  "C20": ("exploration", "vcheck",
